@@ -141,6 +141,9 @@ def main():
     a = ap.parse_args()
     seed = int(os.environ.get("VERIF_SEED", "0"))
     try:
+        if a.pid == "selftest":
+            from harness import selftest
+            return selftest.main()
         if a.replay:
             from harness import replay
             return replay.main(a.pid, a.replay)
